@@ -17,6 +17,7 @@ Paths are strings: "1", "2", "3/1", "4/b0/2" ... exactly the structure operation
 """
 from __future__ import annotations
 
+import copy
 import datetime
 import decimal
 import hashlib
@@ -37,6 +38,9 @@ def path_id(path: str) -> str:
     """Id of the operation at structural path 'a/b/c' where components are ints or 'b<i>' (branch index i)."""
     pid = None
     for comp in path.split("/"):
+        if ".t" in comp:
+            # below a context opened by a user thread on a shared context: the call index depends on the arrival order of the threads
+            return "unknown:" + path
         n = int(comp[1:]) if comp.startswith("b") else int(comp)
         pid = op_id(pid, n)
     return pid
@@ -109,7 +113,7 @@ def wfc_state(node, k):
         v = st[min(k, len(st)) - 1]
         if isinstance(v, dict) and set(v) == {"pool"}:
             return VALUE_POOL[v["pool"] % len(VALUE_POOL)]("wfc", k)     # a value of the serializer's richer domain (aware datetime, Decimal, bytes, ...)
-        return v
+        return copy.deepcopy(v)      # (the program text itself must not be reachable from user-visible values)
     return {"n": k, "h": list(range(1, k + 1))}
 
 
@@ -303,7 +307,7 @@ def build_handler(prog: dict, rec: Recorder):
                     rec.fn_exit(path, False)
                     if node.get("errmsg") is not None:
                         # an exception with a given (possibly empty) message: `raise ValueError` / `raise ValueError("")`
-                        arg = {"<set>": {1, 2}, "<exc>": KeyError("inner")}.get(node["errmsg"], node["errmsg"]) \
+                        arg = {"<set>": {1, 2}, "<exc>": KeyError("inner"), "<long>": "long message " + "E" * 40000}.get(node["errmsg"], node["errmsg"]) \
                             if isinstance(node["errmsg"], str) else node["errmsg"]
                         raise ERR_TYPES[node.get("errtype", "UserError")](*([arg] if node["errmsg"] != "<none>" else []))
                     raise ERR_TYPES[node.get("errtype", "UserError")](f"fail {path} a{attempt}")
@@ -339,7 +343,7 @@ def build_handler(prog: dict, rec: Recorder):
             rec.log("CbBetweenDone", path=path)
             guarded(node, path, obs, cb.result)
         elif k == "invoke":
-            payload = {"from": path}
+            payload = node["payload"] if "payload" in node else {"from": path}
             guarded(node, path, obs, lambda: ctx.invoke("target-fn", payload, name=name, config=InvokeConfig()))
         elif k == "wfc":
             stop_at = node.get("polls", 1)
@@ -392,6 +396,23 @@ def build_handler(prog: dict, rec: Recorder):
             if node.get("summary"):
                 cfg = ChildConfig(summary_generator=lambda r: '{"summary": true}')
             guarded(node, path, obs, lambda: ctx.run_in_child_context(body, name=name, config=cfg))
+        elif k == "uthreads":
+            # user code that runs several child contexts CONCURRENTLY from its own threads, all opened on this one context
+            # (the SDK documents id allocation on a shared context as thread-safe).  Names: "<path>.t<j>" and "<path>.t<j>/<n>"
+            def worker(j, body):
+                def fn(cctx, j=j, body=body):
+                    inner = []
+                    run_nodes(cctx, body, f"{path}.t{j}/", inner)
+                    return inner
+                try:
+                    ctx.run_in_child_context(fn, name=f"{path}.t{j}")
+                except Exception as e:  # noqa: BLE001
+                    rec.log("UThreadError", path=f"{path}.t{j}", rep=exc_repr(e))
+            ths = [ds.Thread(target=worker, args=(j, body), name=f"user-{path}-{j}") for j, body in enumerate(node["bodies"])]
+            for th in ths:
+                th.start()
+            for th in ths:
+                th.join()
         elif k == "wfcb":
             def submitter(cbid, wctx, path=path):
                 # the submitter runs inside step "<path>/2"
@@ -428,6 +449,8 @@ def build_handler(prog: dict, rec: Recorder):
                         rec.branch_out.setdefault(bpath, []).append((rec.inv, "err", exc_repr(be)))
                         raise
                     res = ["L" * (CHECKPOINT_LIMIT + 10), inner] if (node.get("large_item") or idx in (node.get("large_items") or [])) else inner
+                    if idx in (node.get("medium_items") or []):
+                        res = ["M" * (100 * 1024), inner]        # below the limit alone; three of them make the call's result oversized
                     rec.branch_out.setdefault(bpath, []).append((rec.inv, "ok", typed_repr(res)))
                     return res
                 finally:
